@@ -67,6 +67,12 @@ theorem ml_stepParams (env : Env) (st : Store) (ls : List Layer) (p : List (Stri
     injection h with e; rw [← e]
     exact ml_replaceLayer env st ls .params (by decide) _
 
+theorem ml_stepMessages (env : Env) (st : Store) (ls : List Layer) (ms : List (String × String)) :
+    ml (stepMessages env st ls ms).2 = ml ls := by
+  cases ms with
+  | nil => rfl
+  | cons m t => exact ml_replaceLayer env st ls .messages (by decide) _
+
 /-- on success `createModel` writes, at `name`, a manifest whose model layers are those of the base list -/
 theorem createModel_manifest (env : Env) (st : Store) (name : Name) (base : List (Layer × Option Meta))
     (r : CreateReq) (h : (createModel env st name base r).2 = none) :
@@ -96,12 +102,16 @@ theorem createModel_manifest (env : Env) (st : Store) (name : Name) (base : List
             rw [h3] at e3 h; simp only at e3 h ⊢
             cases o3 with
             | none => simp at h
-            | some l3 =>
+            | some l3a =>
               simp only
-              refine ⟨⟨(newLayer env st3 (configJSON (base.filterMap (·.2)) (l3.map (·.digest))) .config).2, l3⟩, ?_, ?_⟩
+              have e3m := ml_stepMessages env st3 l3a r.messages
+              cases h3m : stepMessages env st3 l3a r.messages with
+              | mk st3m l3 =>
+              rw [h3m] at e3m; simp only at e3m ⊢
+              refine ⟨⟨(newLayer env st3m (configJSON (base.filterMap (·.2)) (l3.map (·.digest))) .config).2, l3⟩, ?_, ?_⟩
               · rw [setManifest_man]; simp
               · simp only
-                rw [e3 l3 rfl, e2l, e2, e1]
+                rw [e3m, e3 l3a rfl, e2l, e2, e1]
 
 /-- the digest of a layer is the hash of a content the GGUF decoder accepts -/
 def DecL (env : Env) (l : Layer) : Prop := ∃ c, env.hash c = l.digest.hex ∧ (env.gguf c).isSome = true
@@ -377,7 +387,7 @@ theorem createAt_showInv {env : Env} (hv : env.v.fixReturn = true) (hinj : HashI
           simp only
           cases st.readableAt name with
           | none => exact key st1 rfl
-          | some mo => exact key _ (removeLayers_mans env mo.all st1)
+          | some mo => exact key _ (gcOld_mans env mo.all st1)
 
 theorem dashed_ml (m : Manifest) :
     ml m.dashed.layers = (ml m.layers).map (fun l => { l with digest := ⟨.dash, l.digest.hex⟩ }) := by
